@@ -1621,3 +1621,304 @@ def _vcw(I, info, args):
 def _vw(I, info, args):
     _visitor_for(I, info, 'ref').visit_with(norm_visit_ty(info['self']), args[0], args[1])
     return UNIT
+
+
+# ---------------------------------------------------------------- more iterator adapters
+
+@trait('Iterator', 'take_while')
+def _it_take_while(I, info, args):
+    it = get_iter(I, args[0])
+    clo = args[1]
+
+    def gen():
+        while True:
+            x = it.next()
+            if x is None:
+                return
+            if not to_bool(I, I.call_closure(clo, [Ptr(Cell(x))]), 'take_while'):
+                return
+            yield x
+    return IterV(gen())
+
+
+@trait('Iterator', 'skip_while')
+def _it_skip_while(I, info, args):
+    it = get_iter(I, args[0])
+    clo = args[1]
+
+    def gen():
+        skipping = True
+        while True:
+            x = it.next()
+            if x is None:
+                return
+            if skipping and to_bool(I, I.call_closure(clo, [Ptr(Cell(x))]), 'skip_while'):
+                continue
+            skipping = False
+            yield x
+    return IterV(gen())
+
+
+@trait('Iterator', 'filter')
+def _it_filter(I, info, args):
+    it = get_iter(I, args[0])
+    clo = args[1]
+
+    def gen():
+        while True:
+            x = it.next()
+            if x is None:
+                return
+            if to_bool(I, I.call_closure(clo, [Ptr(Cell(x))]), 'filter'):
+                yield x
+    return IterV(gen())
+
+
+@trait('Iterator', 'filter_map')
+def _it_filter_map(I, info, args):
+    it = get_iter(I, args[0])
+    clo = args[1]
+
+    def gen():
+        while True:
+            x = it.next()
+            if x is None:
+                return
+            r = opt_force(I, I.call_closure(clo, [x]))
+            if r.variant == 1:
+                yield r.fields[0]
+    return IterV(gen())
+
+
+@trait('Iterator', 'count')
+def _it_count(I, info, args):
+    it = get_iter(I, args[0])
+    n = 0
+    while it.next() is not None:
+        n += 1
+    return n
+
+
+@trait('Iterator', 'enumerate')
+def _it_enumerate(I, info, args):
+    it = get_iter(I, args[0])
+
+    def gen():
+        i = 0
+        while True:
+            x = it.next()
+            if x is None:
+                return
+            yield Tup([i, x])
+            i += 1
+    return IterV(gen())
+
+
+@trait('Iterator', 'take')
+def _it_take(I, info, args):
+    it = get_iter(I, args[0])
+    n = I.concretize_int(args[1])
+
+    def gen():
+        k = 0
+        while k < n:
+            x = it.next()
+            if x is None:
+                return
+            yield x
+            k += 1
+    return IterV(gen())
+
+
+@trait('Iterator', 'position')
+def _it_position(I, info, args):
+    it = get_iter(I, args[0])
+    clo = args[1]
+    i = 0
+    while True:
+        x = it.next()
+        if x is None:
+            return none()
+        if to_bool(I, I.call_closure(clo, [x]), 'position'):
+            return some(i)
+        i += 1
+
+
+@trait('Iterator', 'last')
+def _it_last(I, info, args):
+    it = get_iter(I, args[0])
+    last = None
+    while True:
+        x = it.next()
+        if x is None:
+            break
+        last = x
+    return none() if last is None else some(last)
+
+
+@trait('Iterator', 'nth')
+def _it_nth(I, info, args):
+    it = get_iter(I, args[0])
+    n = I.concretize_int(args[1])
+    x = None
+    for _ in range(n + 1):
+        x = it.next()
+        if x is None:
+            return none()
+    return some(x)
+
+
+@trait('Iterator', 'chain')
+def _it_chain(I, info, args):
+    a = get_iter(I, args[0])
+    b = args[1]
+    if not isinstance(b, IterV):
+        b = _into_iter(I, info, [b])
+
+    def gen():
+        while True:
+            x = a.next()
+            if x is None:
+                break
+            yield x
+        while True:
+            x = b.next()
+            if x is None:
+                return
+            yield x
+    return IterV(gen())
+
+
+@trait('Iterator', 'zip')
+def _it_zip(I, info, args):
+    a = get_iter(I, args[0])
+    b = args[1]
+    if not isinstance(b, IterV):
+        b = _into_iter(I, info, [b])
+
+    def gen():
+        while True:
+            x = a.next()
+            y = b.next()
+            if x is None or y is None:
+                return
+            yield Tup([x, y])
+    return IterV(gen())
+
+
+@trait('Iterator', 'peekable')
+def _it_peekable(I, info, args):
+    return args[0]
+
+
+@trait('DoubleEndedIterator', 'rev')
+def _it_rev2(I, info, args):
+    return _it_rev(I, info, args)
+
+
+@trait('DoubleEndedIterator', 'next_back')
+def _it_next_back(I, info, args):
+    it = get_iter(I, args[0])
+    items = []
+    while True:
+        x = it.next()
+        if x is None:
+            break
+        items.append(x)
+    if not items:
+        return none()
+    last = items.pop()
+    it.gen = iter(items)
+    return some(last)
+
+
+@trait('ExactSizeIterator', 'len')
+def _it_len(I, info, args):
+    it = get_iter(I, args[0])
+    items = []
+    while True:
+        x = it.next()
+        if x is None:
+            break
+        items.append(x)
+    it.gen = iter(items)
+    return len(items)
+
+
+@path(('slice', 'last'))
+def _slice_last(I, info, args):
+    items = I.vec_items(args[0])
+    if not items:
+        return none()
+    q = args[0]
+    while isinstance(load(q), Ptr):
+        q = load(q)
+    return some(Ptr(q.cell, q.path + (('i', len(items) - 1),)))
+
+
+@path(('slice', 'get'), ('Vec', 'get'))
+def _slice_get(I, info, args):
+    items = I.vec_items(args[0])
+    i = I.concretize_int(args[1])
+    if i >= len(items):
+        return none()
+    q = args[0]
+    while isinstance(load(q), Ptr):
+        q = load(q)
+    return some(Ptr(q.cell, q.path + (('i', i),)))
+
+
+@path(('Vec', 'extend'), ('Vec', 'extend_from_slice'))
+def _vec_extend(I, info, args):
+    a = I.vec_items(args[0])
+    b = args[1]
+    if isinstance(b, IterV):
+        while True:
+            x = b.next()
+            if x is None:
+                break
+            a.append(x)
+    else:
+        a.extend(deep_clone(x) for x in I.vec_items(b))
+    return UNIT
+
+
+@path(('Vec', 'pop'))
+def _vec_pop(I, info, args):
+    a = I.vec_items(args[0])
+    if not a:
+        return none()
+    return some(a.pop())
+
+
+@path(('Vec', 'remove'))
+def _vec_remove(I, info, args):
+    a = I.vec_items(args[0])
+    i = I.concretize_int(args[1])
+    if i >= len(a):
+        raise Panic('remove-out-of-bounds', '/'.join(I.stack[-2:]))
+    return a.pop(i)
+
+
+@path(('Vec', 'clear'))
+def _vec_clear(I, info, args):
+    del I.vec_items(args[0])[:]
+    return UNIT
+
+
+@path(('Vec', 'contains'))
+def _vec_contains(I, info, args):
+    return _contains(I, info, args)
+
+
+@path(('Vec', 'first'))
+def _vec_first(I, info, args):
+    return _first(I, info, args)
+
+
+@path(('Vec', 'truncate'))
+def _vec_truncate(I, info, args):
+    a = I.vec_items(args[0])
+    n = I.concretize_int(args[1])
+    del a[n:]
+    return UNIT
